@@ -1,0 +1,11 @@
+//go:build verif
+
+package master
+
+import "github.com/lindb/lindb/coordinator/discovery"
+
+// VerifProcessEvent feeds one discovery event synchronously into the state manager
+// (the same processEvent the consume loop calls). Verification hook only.
+func VerifProcessEvent(sm StateManager, event *discovery.Event) {
+	sm.(*stateManager).processEvent(event)
+}
